@@ -166,10 +166,22 @@ class MemoEngine:
         # every class-level dict of the two classes is a memo table (found generically, so a renamed
         # or added table is still reset between runs)
         self.tables = []
-        for cls in (self.NodeSample, self.IntegratorArray):
-            for name, val in sorted(vars(cls).items()):
-                if isinstance(val, dict):
-                    self.tables.append((cls, name, val, copy.deepcopy(val)))
+        import inspect
+        owners = []
+        for mod in (heavy, calculus):
+            owners.append(mod)
+            for _, cls in sorted(vars(mod).items()):
+                if inspect.isclass(cls) and getattr(cls, "__module__", None) == mod.__name__:
+                    owners.append(cls)
+        seen = set()
+        for owner in owners:
+            for name, val in sorted(vars(owner).items()):
+                if isinstance(val, dict) and id(val) not in seen and not (name.startswith("__") and name.endswith("__")):
+                    seen.add(id(val))
+                    try:
+                        self.tables.append((owner, name, val, copy.deepcopy(val)))
+                    except Exception:  # noqa  (not a plain data table)
+                        pass
         self.cold = {}
 
     def cleanup(self):
@@ -190,6 +202,8 @@ class MemoEngine:
     def table_lookup(self, fam, n):
         """Is (family, n) already stored?  Family tags are the function names of the fillers."""
         cls = self.NodeSample if fam.startswith("N:") else self.IntegratorArray
+        if not isinstance(n, int):
+            return True
         want = {"N:chebyshev": "__cheby", "N:gauss_legendre": "__gauss", "I:closed_newton_cotes": "__closed_newton",
                 "I:open_newton_cotes": "__open_newton", "I:chebyshev": "__cheby", "I:gauss_legendre": "__gauss"}[fam]
         for c, name, obj, _ in self.tables:
